@@ -20,6 +20,7 @@ func init() {
 		ID:    "C10",
 		Level: "exploration",
 		Rule: "literals are generated from bit patterns: all 65536 half patterns (0xH form), structured sets for float/double/x86_fp80/fp128/ppc_fp128 (zeros, smallest/largest subnormal and normal, ones, infinities, exponent sweep (every exponent of float; of double every 52nd in quick and every one in thorough; a stride for the 15-bit exponents) x {zero, one, all-ones, alternating, single-bit} mantissa, quiet/signalling NaNs with payload bits at every position) plus PRNG patterns, each in the kind's hex form and, where exact, in decimal/scientific form. For each literal L that LLVM accepts: NewFloatFromString must succeed, L'=Ident() must be accepted by LLVM and LLVM's own printing of `K L'` must equal its printing of `K L` (same bits, LLVM's printer is canonical), and the library's re-parse of L' must be the same constant (value, sign, NaN flag); the same literal also goes through asm.ParseString. " +
+			"Further literals: decimals beyond the range of each kind (to infinity / zero, including exponents beyond big.Float's range), the largest and smallest finite value of each kind in decimal, the ends of the ppc_fp128 range and pairs 1077+ bits apart (a changed canonical pair has its own key), short 0xK forms with a leading 8. " +
 			"non-trivial = every LLVM-accepted literal; distinct by (kind, spelling)",
 		Gen:           genC10,
 		MinNontrivial: 10000,
@@ -309,6 +310,15 @@ func c10Structured(r *fw.Rec, kind string, blk, nblk int) {
 		// decimals beyond the range of doubles: LLVM reads them as infinity of the kind
 		for _, lit := range []string{"1.0e400", "-1.0e400", "1.0e999", "-1.0e+999", "2.0e308", "-1.8e308", "123456789.0e301", "1.797693134862315807e+309", "1.0e+99999999999", "-1.0e+2147483647", "1.0e+1000000000"} {
 			add(lit, "decimal-overflow-to-infinity")
+		}
+		// the largest and smallest finite values of the kind, written in decimal
+		ends := map[string][]string{
+			"half":   {"65504.0", "-65504.0", "6.5504e+04", "5.9604644775390625e-08", "6.103515625e-05"},
+			"float":  {"3.4028234663852886e+38", "-3.4028234663852886E38", "340282346638528859811704183484516925440.0", "1.401298464324817e-45", "1.1754943508222875e-38", "3.4028232635611926e+38"},
+			"double": {"1.7976931348623157e+308", "-1.7976931348623157e+308", "4.9406564584124654e-324", "2.2250738585072014e-308", "179769313486231570814527423731704356798070567525844996598917476803157260780028538760589558632766878171540458953514382464234321326889464182768467546703537516986049910576551282076245490090389328944075868508455133942304583236903222948165808559332123348274797826204144723168738177180919299881250404026184124858368.0"},
+		}
+		for _, lit := range ends[kind] {
+			add(lit, "decimal-extreme-finite")
 		}
 	}
 	// spellings with fewer digits than the full width of a kind-prefixed form
